@@ -21,7 +21,7 @@ ASSUMPTIONS = [
     "gmpy2.qdiv is replaced by fractions.Fraction (exact) because gmpy2 is not installed",
     "HyperbolicPairing is explored up to index 20000 (quick) / 100000 (thorough) (divisor-function cost)",
 ]
-REQUIRED_COUNTERS = ["roundtrip_index", "roundtrip_tuple", "z1d_orders", "lazy_products", "states_enumerations"]
+REQUIRED_COUNTERS = ["roundtrip_index", "roundtrip_tuple", "z1d_orders", "lazy_products", "states_enumerations", "states_enumerations_unequal_axis_sizes"]
 MIN_NONTRIVIAL = {"quick": 40, "thorough": 200}
 THOROUGH_ROUNDS = 6      # the thorough tier runs the generators this many times (different seeds)
 
@@ -69,6 +69,11 @@ def gen_cases(tier, seed):
             for mag in mags:
                 cases.append({"kind": "tuples", "pairing": name, "dim": dim, "mag": mag,
                               "seed": int(rng.integers(2**31)), "n": 300 if not thorough else 3000})
+    # dimension 4 (offered through the generic recursion / the d-dimensional Rosenberg-Strong formula)
+    for name in ["Szudzik", "RosenbergStrong"]:
+        cases.append({"kind": "tuples", "pairing": name, "dim": 4, "mag": 1, "seed": int(rng.integers(2**31)), "n": 300 if not thorough else 3000})
+        cases.append({"kind": "window", "pairing": name, "dim": 4, "lo": 0, "hi": 3000 if not thorough else 20000})
+        cases.append({"kind": "zd", "pairing": name, "dim": 4, "omit": True, "n": 2000 if not thorough else 20000, "seed": int(rng.integers(2**31))})
     # signed extension
     for name in ["Szudzik", "RosenbergStrong", "Cantor"]:
         for dim in (2, 3):
@@ -109,6 +114,10 @@ def gen_cases(tier, seed):
     for d, nl, nr in shapes:
         for order in (["increasing"] if d > 1 else ["increasing", "restart"]):
             cases.append({"kind": "states", "dim": d, "nl": nl, "nr": nr, "order": order})
+    # axes of different sizes (same origin index)
+    for d, nl, nrs in [(2, 2, [2, 6]), (2, 2, [6, 2]), (2, 1, [3, 5]), (3, 2, [2, 3, 4]), (3, 1, [4, 1, 2])] + \
+            ([(2, 3, [9, 4]), (2, 4, [2, 11]), (3, 2, [5, 2, 3]), (3, 3, [1, 4, 2])] if thorough else []):
+        cases.append({"kind": "states", "dim": d, "nl": nl, "nr": max(nrs), "nrs": nrs, "order": "increasing"})
     return cases
 
 
@@ -317,12 +326,16 @@ class _FlatMeasure:
         return (-np.inf, np.inf)
 
 
-def _make_grid(dim, nl, nr):
+def _make_grid(dim, nl, nr, nrs=None):
     from rpylib.grid.spatial import CTMCGrid
 
     h = 0.1
-    axis = np.concatenate([-h * np.arange(nl, 0, -1), [0.0], h * np.arange(1, nr + 1)])
-    return CTMCGrid(h=h, origin_coordinate=nl, axes=[axis.copy() for _ in range(dim)])
+    nrs = list(nrs) if nrs else [nr] * dim
+
+    def axis(n_right):
+        return np.concatenate([-h * np.arange(nl, 0, -1), [0.0], h * np.arange(1, n_right + 1)])
+
+    return CTMCGrid(h=h, origin_coordinate=nl, axes=[axis(n) for n in nrs])
 
 
 def _states(case, R):
@@ -332,7 +345,10 @@ def _states(case, R):
                                              Domain, Boundary)
 
     dim, nl, nr = case["dim"], case["nl"], case["nr"]
-    grid = _make_grid(dim, nl, nr)
+    nrs = case.get("nrs") or [nr] * dim
+    grid = _make_grid(dim, nl, nr, nrs)
+    if len(set(nrs)) > 1:
+        R.hit("states_enumerations_unequal_axis_sizes")
     if dim == 1:
         pairing = PairingToZ1d((-nl, nr), omit_zero=True)
     elif dim == 2:
@@ -342,7 +358,7 @@ def _states(case, R):
     domain = Domain(boundary=Boundary(), grid=grid, pairing=pairing)
     sm = StatesManager(pairing=pairing, domain=domain, grid=grid)
     R.hit("states_enumerations")
-    want = set(itertools.product(range(-nl, nr + 1), repeat=dim)) - {tuple([0] * dim)}
+    want = set(itertools.product(*[range(-nl, n + 1) for n in nrs])) - {tuple([0] * dim)}
     got = []
     x = 0
     limit = 50 * (len(want) + 10) * (4 if dim == 3 else 1)
@@ -356,7 +372,7 @@ def _states(case, R):
         s = tuple(int(v) for v in np.atleast_1d(state))
         got.append(s)
         x += 1
-    shape = f"{dim}d-" + ("sym" if nl == nr else "asym")
+    shape = f"{dim}d-" + ("sym" if nl == nr else "asym") + ("-unequal-axes" if len(set(nrs)) > 1 else "")
     if not exhausted:
         R.violation(f"states-no-exhaustion-{shape}", f"StatesManager never signals exhaustion on grid {dim}d nl={nl} nr={nr}",
                     {"case": case})
